@@ -70,6 +70,44 @@ def build(s, repl, path=(), counter=[0]):
         return Do(b if b["k"] == "block" else Block([b]), COND())
 
 
+def build_rt(s, repl, rng, path=(), st=None, cnt=None):
+    """terminating variant: every loop has its own counter (2 iterations), leaves add distinct weights to the
+    trace t, break/continue are guarded by the innermost counter half of the time"""
+    if st is None:
+        st = {"n": 0, "w": 0}
+    if s == "L":
+        r = repl.get(path)
+        if r in ("break", "continue"):
+            fl = Break() if r == "break" else Continue()
+            if cnt is not None and rng.random() < 0.6:
+                return If(B("==", V(cnt), I(1)), fl)
+            return fl
+        st["w"] += 1
+        return ES(A(V("t"), B("+", V("t"), I(st["w"] * st["w"] + 1))))
+    k = s[0]
+    if k == "blk":
+        return Block([build_rt(c, repl, rng, path + (i,), st, cnt) for i, c in enumerate(s[1])])
+    if k == "if":
+        return If(B("<", V("t"), I(40)), build_rt(s[1], repl, rng, path + (0,), st, cnt))
+    if k == "ifelse":
+        return If(B("==", B("%", V("t"), I(2)), I(0)), build_rt(s[1], repl, rng, path + (0,), st, cnt), build_rt(s[2], repl, rng, path + (1,), st, cnt))
+    st["n"] += 1
+    n = "c%d" % st["n"]
+    if k == "for":
+        return For(Decl("int", n, I(0)), B("<", V(n), I(3)), Pre("++", n), build_rt(s[1], repl, rng, path + (0,), st, n))
+    body = build_rt(s[1], repl, rng, path + (0,), st, n)
+    body = body if body["k"] == "block" else Block([body])
+    body["b"].insert(0, ES(A(V(n), B("+", V(n), I(1)))))
+    if k == "while":
+        return Block([Decl("int", n, I(0)), While(B("<", V(n), I(3)), body)])
+    return Block([Decl("int", n, I(0)), Do(body, B("<", V(n), I(3)))])
+
+
+def program_rt(s, repl, rng):
+    body = [Decl("int", "t", V("a")), build_rt(s, repl, rng), Ret(V("t"))]
+    return Module([Func("f", [Arg("int", "a")], "int", Block(body), export=True)])
+
+
 def program(s, repl):
     body = [Decl("int", "t", I(0)), build(s, repl, (), [0]), Ret(V("t"))]
     return Module([Func("f", [Arg("int", "a")], "int", Block(body), export=True)])
@@ -144,18 +182,44 @@ def run(ctx):
             codes.extend(vals[0])
     bad_model = [x for x, c in zip(meta, codes) if c is not None and c & 1]
     bad_spec = [x for x, c in zip(meta, codes) if c is not None and c & 2]
-    ctx.cov["evaluations"] = len(jobs)
+    # ---- second half: an accepted break/continue refers to the innermost enclosing loop (run-time effect)
+    import vmcases
+    rt = []
+    accepted = [(s_, repl) for (s_, repl), r in zip(progs, res) if r["accept"] and repl]
+    for (s_, repl) in (accepted if not quick else rng.sample(accepted, min(len(accepted), 160))):
+        m = program_rt(s_, repl, rng)
+        text, _ = nslgen.render(m, "canonical", rng)
+        calls = [{"fn": "f", "args": {"a": a}, "globals": {}, "read_globals": []} for a in (0, 1, 50)]
+        rt.append((m, calls, text))
+    res2 = ctx.run_impl("compile_impl.py", [vmcases.job(t, c, optimize=bool(k % 2)) for k, (m, c, t) in enumerate(rt)], nworkers=16)
+    blocks, meta2 = [], []
+    for k, ((m, calls, text), r) in enumerate(zip(rt, res2)):
+        if not r["accept"] or "ir" not in r:
+            direct_bad.append(({"src": text, "opts": {}}, r)); continue
+        blocks.append(vmcases.case_block(k, m, r, calls, with_ir=(k % 2 == 0))); meta2.append(({"src": text, "opts": {"optimize": bool(k % 2)}}, r))
+    files2 = vmcases.write_case_files(ctx, "C11rt", blocks)
+    outs2 = ctx.eval_cases(files2, timeout=900)
+    codes2 = vmcases.collect_codes(ctx, files2, outs2, len(blocks))
+    rt_bad_spec = [x for x, c in zip(meta2, codes2) if c is not None and c & 2]
+    rt_bad_model = [x for x, c in zip(meta2, codes2) if c is not None and (c & 1 or (c & 16 and not c & 64))]
+    dist["runtime_programs"] = len(rt)
+    dist["runtime_spec_skipped"] = sum(1 for c in codes2 if c is not None and c & 8)
+    bad_spec = bad_spec + [({"src": j["src"], "opts": j["opts"]}, {"calls": r.get("calls")}) for j, r in rt_bad_spec]
+    bad_model = bad_model + rt_bad_model
+    ctx.cov["evaluations"] = len(jobs) + 3 * len(rt)
     ctx.cov["distinct_nontrivial"] = len({j["src"] for j in jobs if ("break" in j["src"] or "continue" in j["src"])})
     ctx.cov["rule"] = ("every statement skeleton up to depth 2 over {block(1-2 statements), if, if/else, for, while, do} with a break or a continue at every "
                        "leaf position (exhaustive, %d programs), depth-3 skeletons (thorough: all positions; quick: sampled) and random skeletons with up to three "
                        "flow statements; compiled by the real compiler at both optimisation settings in three layouts; accept / rejection-by-flow-diagnostic compared "
-                       "inside Coq with the model (depth counter) and the specification (path based). Non-trivial: contains a break or continue; distinct by text." % n_ex)
+                       "inside Coq with the model (depth counter) and the specification (path based). Second half: the accepted programs are rebuilt with one counter per "
+                       "loop and weighted trace leaves, run on the real VM on three inputs and compared inside Coq with the reference semantics (break leaves / continue re-tests "
+                       "the innermost loop) and the VM model. Non-trivial: contains a break or continue; distinct by text." % n_ex)
     ctx.cov["samples"] = [{"source": j["src"], "impl": r} for j, r in (meta[40:42] + meta[-1:])]
     ctx.extra["input_distribution"] = dist
     ctx.extra["disagreements_checked"] = len(codes)
     if bad_spec or direct_bad:
         j, r = min(bad_spec or direct_bad, key=lambda x: len(x[0]["src"]))
-        ctx.violation("failing-input", {"what": "accept/reject of a program differs from 'rejected exactly when a break/continue is outside every loop'",
+        ctx.violation("failing-input", {"what": "accept/reject differs from 'rejected exactly when a break/continue is outside every loop', or the run-time effect of an accepted break/continue differs from leaving / re-testing the innermost enclosing loop",
                                         "source": j["src"], "options": j["opts"], "observed": r, "count": len(bad_spec) + len(direct_bad)})
     elif bad_model:
         j, r = bad_model[0]
